@@ -20,7 +20,7 @@ func init() {
 	// and options through every search entry point. Complements the safety sweep, which starts
 	// from "the decoder returned an arbitrary []Command".
 	suites["C10-robustness"] = func() result {
-		r := result{Name: "C10-robustness", Bound: "real LoadDatabase on 60 hand-made and 600 seeded random file contents (valid lists, other YAML shapes, damaged YAML, binary, empty, huge scalars), a missing file and a directory; every loaded database searched with 24 queries (NUL, invalid UTF-8, 1000 characters, blanks, punctuation, long word lists) x 8 option sets (limits <= 0, huge, NLP, fuzzy, negative thresholds, pipeline, platforms, TopTermsCap 1..3) through SearchUniversal, Search, SearchWithOptions, SearchWithPipelineOptions, SearchWithFuzzy, SearchWithNLP, the cached search, GetSuggestions and the recovery search; each call bounded by 5 s"}
+		r := result{Name: "C10-robustness", Bound: "real LoadDatabase on 60 hand-made and 600 seeded random file contents (valid lists, other YAML shapes, damaged YAML, binary, empty, huge scalars), a missing file and a directory; every loaded database searched with 24 queries (NUL, invalid UTF-8, 1000 characters, blanks, punctuation, long word lists) x 8 option sets (limits <= 0, huge, NLP, fuzzy, negative thresholds, pipeline, platforms, TopTermsCap 1..3) through SearchUniversal, Search, SearchWithOptions, SearchWithPipelineOptions, SearchWithFuzzy, SearchWithNLP, the cached search, GetSuggestions and the recovery search; each call bounded by 60 s (a generous bound: the check looks for hangs and runaway loops, not for speed)"}
 		var bad []string
 		fail := func(f string, a ...interface{}) {
 			if len(bad) < 6 {
@@ -79,8 +79,8 @@ func init() {
 				if m != "" {
 					fail("%s", m)
 				}
-			case <-time.After(5 * time.Second):
-				fail("%s did not return within 5 s", what)
+			case <-time.After(60 * time.Second):
+				fail("%s did not return within 60 s", what)
 			}
 			r.Cases++
 		}
@@ -96,6 +96,27 @@ func init() {
 				fail("a directory loaded as a database")
 			}
 		})
+		// well-formed lists (the empty list included) load, with every entry kept
+		for wi, w := range []struct {
+			content string
+			n       int
+		}{
+			{"", 0}, {"\n\n", 0}, {"[]", 0}, {"# only a comment\n", 0}, {"---\n", 0}, {"- command: ls\n  description: list\n", 1},
+			{"- command: ls\n- command: \n  description: only description\n  keywords: [a, b]\n", 2}, {"- command: ''\n  description: ''\n- command: '   '\n- description: no command at all\n", 3},
+			{strings.Repeat("- command: c\n  description: d\n", 300), 300}, {"- command: a | b\n  pipeline: false\n- command: a\n  pipeline: true\n", 2},
+		} {
+			path := filepath.Join(root, fmt.Sprintf("w%d.yml", wi))
+			os.WriteFile(path, []byte(w.content), 0o644)
+			guard(fmt.Sprintf("LoadDatabase(well-formed #%d)", wi), func() {
+				d, err := database.LoadDatabase(path)
+				if err != nil || d == nil {
+					fail("well-formed list %q does not load: %v", trunc80(w.content), err)
+				} else if len(d.Commands) != w.n {
+					fail("well-formed list %q loads %d entries, it has %d", trunc80(w.content), len(d.Commands), w.n)
+				}
+			})
+			os.Remove(path)
+		}
 		for ci, content := range contents {
 			path := filepath.Join(root, fmt.Sprintf("f%d.yml", ci))
 			os.WriteFile(path, []byte(content), 0o644)
@@ -137,7 +158,7 @@ func init() {
 			}
 		}
 		r.Falsified = bad
-		r.Checked = []string{"no panic, every call returns within 5 s", "missing file -> not-found error", "undecodable content -> parse error, never a database", "well-formed lists load"}
+		r.Checked = []string{"no panic, every call returns within 60 s", "missing file -> not-found error", "undecodable content -> parse error, never a database", "well-formed lists load"}
 		return r
 	}
 }
